@@ -161,7 +161,8 @@ def run(ck):
         for kind, label, crys, chem, m in fixed:
             do_case(kind, label, crys, chem, m, fixed=True)
         if stats["archives_with_3plus_species"] == 0:
-            raise RuntimeError("generator did not produce a supercell dictionary with three or more non-empty species")
+            violation("c30-generator-precondition", "none of the fixed multi-species hosts gave a supercell dictionary with three or more non-empty "
+                      "species (calculators could not be built or makesupercells left species out)", dict(hosts=[f_[1] for f_ in fixed], skipped=dict(skipped)))
         for kind in ("interstitial", "vacancy"):
             made = 0
             names = ["hcp-oct-tet", "fcc-oct-tet", "bcc-tet", "sc", "b2-1", "polar2w"] if kind == "interstitial" else \
